@@ -75,6 +75,46 @@ def attr_orders(v, path="top", out=None):
     return out
 
 
+_PLAIN = (str, int, bool, float, type(None))
+
+
+def _plain(v):
+    if isinstance(v, _PLAIN):
+        return v == v
+    if isinstance(v, (list, tuple)):
+        return all(_plain(x) for x in v)
+    if isinstance(v, dict):
+        return all(_plain(k) and _plain(x) for k, x in v.items())
+    return False
+
+
+def unequal_plain_values(a, b, path="top", depth=0):
+    """Two value trees with equal digests, compared the way an application would: every mapping,
+    list and tuple made of strings and numbers only must compare equal with '==' (and not unequal
+    with '!=').  -> path of the first pair that does not, or None"""
+    if depth > 40:
+        return None
+    if isinstance(a, zdt.Wrapped) and isinstance(b, zdt.Wrapped):
+        return unequal_plain_values(a.value, b.value, path, depth + 1)
+    if hasattr(a, "getSectionAttributes") and hasattr(b, "getSectionAttributes"):
+        for n in a.getSectionAttributes():
+            if hasattr(b, n):
+                r = unequal_plain_values(getattr(a, n), getattr(b, n), path + "." + n, depth + 1)
+                if r:
+                    return r
+        return None
+    if isinstance(a, list) and isinstance(b, list) and len(a) == len(b) and not _plain(a):
+        for i, (x, y) in enumerate(zip(a, b)):
+            r = unequal_plain_values(x, y, "%s[%d]" % (path, i), depth + 1)
+            if r:
+                return r
+        return None
+    if isinstance(a, (dict, list, tuple)) and _plain(a) and _plain(b):
+        if not (a == b) or (a != b):
+            return "%s: %r == %r is %r" % (path, a, b, a == b)
+    return None
+
+
 def containers(v, out=None):
     """All mutable containers (lists/dicts) reachable from a value tree, by id."""
     out = {} if out is None else out
